@@ -1,0 +1,5 @@
+//go:build !verif
+
+package fail
+
+func verifFail() bool { return false }
